@@ -23,7 +23,7 @@ RULE = ("a probe model M is observed (argument names and values, state map, RHS 
         "process-global caches are recorded; non-trivial = history contains >= 1 compile of a model related to M; distinct = "
         "distinct (M, history) hash")
 DECIDING = ['observations_compared', 'earlier_functions_rechecked', 'hist_steps', 'hist_compiles', 'hist_no_clear_compiles',
-            'hist_exceptions', 'hist_same_opname', 'hist_same_objects', 'shared_subcircuit_cases', 'hist_shared_update_var', 'input_history_cases', 'revectorize_cases', 'fortran_file_name_cases']
+            'hist_exceptions', 'hist_same_opname', 'hist_same_objects', 'shared_subcircuit_cases', 'hist_shared_update_var', 'input_history_cases', 'revectorize_cases', 'fortran_file_name_cases', 'large_array_cases']
 ASSUMPTIONS = ['the probe model is observed through fresh template objects built from its spec (the state carry-over of a '
                'template object is documented statefulness, DESIGN 4a)']
 CASE_TIMEOUT = 300
@@ -48,6 +48,8 @@ def plan(tier, seed):
     cases += [{'family': 'revectorize', 'cseed': rnd.randrange(1 << 30)} for _ in range(24 if tier == 'quick' else 500)]
     # Fortran backend: models compiled one after the other under the same output file name
     cases += [{'family': 'fortran_file_name', 'cseed': rnd.randrange(1 << 30)} for _ in range(10 if tier == 'quick' else 150)]
+    # operators that differ only in interior elements of a long constant vector
+    cases += [{'family': 'large_array_constants', 'cseed': rnd.randrange(1 << 30)} for _ in range(8 if tier == 'quick' else 100)]
     # a circuit loaded from YAML, modified, and the same path loaded again
     fam = 'probe:from_yaml_cached_circuit_modified' if 'from_yaml_cached_circuit_modified' in opened else 'yaml_reload'
     cases += [{'family': fam, 'cseed': rnd.randrange(1 << 30)} for _ in range(8 if tier == 'quick' else 100)]
@@ -554,6 +556,50 @@ def run_fortran_case(case, ctx):
     return res
 
 
+def run_large_array_case(case, ctx):
+    """Two operators with the same name and equations whose constant vector (more than 1000 elements, so that its repr is
+    abbreviated) differs in a few interior elements, compiled one after the other without clear(): each function must read
+    its own vector."""
+    from pyrates import OperatorTemplate, NodeTemplate, CircuitTemplate
+    rnd = random.Random(case['cseed'])
+    nrs = np.random.RandomState(case['cseed'] % (2 ** 31))
+    n = rnd.choice([1001, 1500, 2000, 5000])
+    base = nrs.uniform(0.5, 1.5, n).round(4)
+    idx = sorted(rnd.sample(range(4, n - 4), 3))
+    variants = [base.copy()]
+    for _ in range(rnd.randint(1, 2)):
+        v = variants[-1].copy()
+        v[idx] = nrs.uniform(2.0, 3.0, 3).round(4)
+        variants.append(v)
+    mech = {}
+    res = {'features': ['large_array_constants', f'n{n}'], 'risk': [], 'sig': stable_hash([n, idx, case['cseed']]), 'nontrivial': True}
+    try:
+        for vi, arr in enumerate(variants):
+            i0 = rnd.choice(idx)
+            op = OperatorTemplate(name='big_op', equations=[f"x' = -x + index(w, {i0})"],
+                                  variables={'x': 'output(0.0)', 'w': {'vtype': 'constant', 'value': arr.copy(), 'shape': (n,), 'dtype': 'float'}})
+            c = CircuitTemplate(name='big', nodes={'a': NodeTemplate(name='big_node', operators=[op])})
+            try:
+                f, args, names, smap = c.get_run_func('vf', step_size=1e-3, vectorize=False, verbose=False, clear=False, in_place=False,
+                                                      float_precision='float64')
+                got = float(np.asarray(f(*args)).ravel()[0])
+            except Exception as e:
+                raise observe.Mismatch(f"loud: get_run_func raised {type(e).__name__}: {e}")
+            mech['hist_steps'] = mech.get('hist_steps', 0) + 1
+            mech['hist_compiles'] = mech.get('hist_compiles', 0) + 1
+            mech['hist_no_clear_compiles'] = mech.get('hist_no_clear_compiles', 0) + 1
+            if not abs(got - arr[i0]) <= 1e-12:
+                raise observe.Mismatch(f"operator number {vi + 1} of the process with a constant vector of {n} elements (differs from the earlier one in "
+                                       f"elements {idx}): index(w, {i0}) evaluates to {got!r}, the vector holds {arr[i0]!r}")
+            mech['observations_compared'] = mech.get('observations_compared', 0) + 1
+        mech['large_array_cases'] = 1
+        res.update(status='ok', symptom='', mech=mech, sample={'n': n, 'differing_elements': idx})
+    except observe.Mismatch as e:
+        s2 = str(e)
+        res.update(status='violation', symptom=('silent: ' if 'loud' not in s2 else '') + s2, mech=mech, spec={'n': n, 'idx': idx})
+    return res
+
+
 def run_yaml_reload_case(case, ctx):
     """A YAML-defined circuit is loaded, the loaded circuit is modified (update_var / in-place edge addition) and possibly
     simulated; the SAME path is then loaded again: the second circuit must be the model the file defines."""
@@ -614,6 +660,8 @@ def run_case(case, ctx):
         return run_yaml_reload_case(case, ctx)
     if case.get('family') == 'fortran_file_name':
         return run_fortran_case(case, ctx)
+    if case.get('family') == 'large_array_constants':
+        return run_large_array_case(case, ctx)
     if case.get('family') == 'revectorize':
         return run_revectorize_case(case, ctx)
     if case.get('family') == 'shared_subcircuits':
